@@ -25,19 +25,27 @@ namespace CV.C15
 def scalarPair (lk : LoadKind) (sk : SaveKind) : Bool :=
   match lk, sk with
   | .direct, .direct | .setIfNotDefault, .direct | .setIfNotDefault, .omitIfDefault
-  | .zeroMeansDefault, .direct | .mergo, .direct => true
+  | .zeroMeansDefault, .direct | .mergo, .direct | .copyNonEmpty, .direct => true
   | _, _ => false
 
 /-- duration kind pairs -/
 def durPair (lk : LoadKind) (sk : SaveKind) : Bool :=
   match lk, sk with
   | .parseDurations, .durString | .parseDurations, .omitIfDefaultDur
-  | .parseOrZeroSIND, .durString | .parseOrZeroDirect, .durString => true
+  | .parseOrZeroSIND, .durString | .parseOrZeroDirect, .durString | .emptyZeroParseDurations, .durString => true
+  | _, _ => false
+
+/-- parse/print kind pairs (single value, list, the crdt `"*"` list) and the TLS path pair -/
+def codecPair (lk : LoadKind) (sk : SaveKind) : Bool :=
+  match lk, sk with
+  | .codecAlways, .codecPrint | .codecNonEmpty, .codecPrint | .codecNonEmpty, .codecPrintNonZero
+  | .codecListAlways, .codecListPrint | .codecListNonEmpty, .codecListPrint | .codecListNonEmpty, .codecListPrintNonEmpty
+  | .codecListLenient, .codecListPrint | .peerListStar, .peerListStarPrint | .tlsPath, .direct => true
   | _, _ => false
 
 /-- `lossless` is exactly: a scalar pair, a duration pair, or the pointer pair -/
 theorem lossless_cases (lk : LoadKind) (sk : SaveKind) :
-    lossless lk sk = (scalarPair lk sk || durPair lk sk || (lk == .pointerOptional && sk == .direct)) := by
+    lossless lk sk = (scalarPair lk sk || durPair lk sk || codecPair lk sk || (lk == .pointerOptional && sk == .direct)) := by
   cases lk <;> cases sk <;> rfl
 
 /-- a field that is saved but never loaded, or loaded but never saved, is never lossless
@@ -65,6 +73,7 @@ theorem scalar_roundtrip [DecidableEq α] (lk : LoadKind) (sk : SaveKind) (h : s
   · exact sind_omit_roundtrip zero d j
   · by_cases h1 : j = zero <;> simp [h1]
   · by_cases h1 : j = zero <;> simp [h1]
+  · by_cases h1 : j = zero <;> simp [h1]
 
 /-- **No setting dropped, scalars.**  Every non-zero value arrives in the Config. -/
 theorem scalar_settable [DecidableEq α] (lk : LoadKind) (sk : SaveKind) (h : scalarPair lk sk = true)
@@ -76,8 +85,8 @@ theorem direct_settable [DecidableEq α] (zero cur d v : α) : loadScalar .direc
 
 /-- **Zero means default** for the zero-blind scalar kinds (the property's parenthesis). -/
 theorem zero_means_default [DecidableEq α] (lk : LoadKind) (hb : zeroBlind lk = true) (hp : lk ≠ .parseOrZeroSIND)
-    (zero d : α) : loadScalar lk zero d d zero = d := by
-  cases lk <;> simp [zeroBlind] at hb <;> simp_all [loadScalar]
+    (hc : lk.isCodec = false ∨ lk = .copyNonEmpty) (zero d : α) : loadScalar lk zero d d zero = d := by
+  cases lk <;> simp [zeroBlind] at hb <;> simp_all [loadScalar, LoadKind.isCodec]
 
 /-- **Booleans under a zero-blind kind are settable iff the default is `false`.**  `false` is not a numeric
 zero, so the property does not excuse it: this is the badger `truncate` / `sync_writes` defect. -/
@@ -106,12 +115,13 @@ theorem dur_settable (lk : LoadKind) (sk : SaveKind) (h : durPair lk sk = true) 
 current value under `SetIfNotDefault` (raft) -/
 theorem dur_zero (cur : Int) :
     loadDur .parseDurations cur (.ok 0) = some 0 ∧ loadDur .parseOrZeroSIND cur (.ok 0) = some cur ∧
-    loadDur .parseOrZeroDirect cur (.ok 0) = some 0 := by
+    loadDur .parseOrZeroDirect cur (.ok 0) = some 0 ∧
+    loadDur .emptyZeroParseDurations cur (.ok 0) = some 0 ∧ loadDur .emptyZeroParseDurations cur .empty = some 0 := by
   simp [loadDur]
 
 /-- **Refusal is an error value, and only for an unparsable string under a checked ParseDurations.** -/
 theorem dur_refuses_only_bad (lk : LoadKind) (cur : Int) (j : DurJ) (h : loadDur lk cur j = none) :
-    lk = .parseDurations ∧ j = .bad := by
+    (lk = .parseDurations ∨ lk = .emptyZeroParseDurations) ∧ j = .bad := by
   cases j <;> cases lk <;> simp_all [loadDur]
 
 /-- pointer settings: absent keeps the current value, anything else (zero included) is taken -/
@@ -141,6 +151,287 @@ theorem parseDurations_unchecked_drops :
     ∃ l : List (DurJ × Int), (parseDurations l).2 = true ∧ (parseDurations l).1 ≠ l.map durTaken := by
   refine ⟨[(.bad, 60), (.ok 5, 0)], ?_⟩
   decide
+
+
+/-! ## 1b. settings that go through a parser and a printer
+
+Generic in the JSON-level type `J`, the Config-level type `C` and the codec.  The library codecs (multiaddress,
+peer ID, hex secret, base64 key) are trusted to satisfy `RoundTrips` — exactly like `time.ParseDuration ∘ String`;
+for the enumeration codec it is proved from the regenerated tables (`table_enum_roundtrips`). -/
+section CodecKinds
+set_option linter.unusedSectionVars false
+variable {J C : Type} [DecidableEq J] [DecidableEq C]
+
+theorem leftInv_roundTrips (cd : Codec J C) (h : cd.LeftInv) : cd.RoundTrips := fun _ c _ => h c
+
+/-- `codecAlways` / `codecPrint`: whatever was accepted is reproduced by save → load -/
+theorem codec_always_roundtrip (cd : Codec J C) (h : cd.RoundTrips) (empty : J) (unset cur cur' v : C) (j : J)
+    (hl : loadCodec .codecAlways cd empty cur j = some v) :
+    loadCodec .codecAlways cd empty cur' (saveCodec .codecPrint cd empty unset v) = some v := by
+  simp only [loadCodec, saveCodec] at *
+  exact h j v hl
+
+/-- `codecNonEmpty` / `codecPrint` (ipfsproxy `node_multiaddress`): "" keeps the current value, which `Default()`
+obtained from the parser (`hcur`); the empty string itself is not a parsable value (`hempty`) -/
+theorem codec_nonempty_roundtrip (cd : Codec J C) (h : cd.RoundTrips) (empty : J) (unset cur v : C) (j : J)
+    (hempty : cd.parse empty = none) (hcur : cd.parse (cd.print cur) = some cur)
+    (hl : loadCodec .codecNonEmpty cd empty cur j = some v) :
+    loadCodec .codecNonEmpty cd empty cur (saveCodec .codecPrint cd empty unset v) = some v := by
+  simp only [loadCodec, saveCodec] at *
+  by_cases hj : j = empty
+  · simp [hj] at hl; subst hl
+    by_cases hp : cd.print cur = empty
+    · simp [hp]
+    · simp [hp, hcur]
+  · simp [hj] at hl
+    have h2 := h j v hl
+    have hp : cd.print v ≠ empty := fun he => by rw [he, hempty] at h2; cases h2
+    simp [hp, h2]
+
+/-- `codecNonEmpty` / `codecPrintNonZero` (restapi `id`, `private_key`): the default is "not configured", which
+is saved as "" and comes back as "not configured"; the parser never yields that value (`hunset`) -/
+theorem codec_nonempty_nonzero_roundtrip (cd : Codec J C) (h : cd.RoundTrips) (empty : J) (unset v : C) (j : J)
+    (hempty : cd.parse empty = none) (hunset : ∀ j, cd.parse j ≠ some unset)
+    (hl : loadCodec .codecNonEmpty cd empty unset j = some v) :
+    loadCodec .codecNonEmpty cd empty unset (saveCodec .codecPrintNonZero cd empty unset v) = some v := by
+  simp only [loadCodec, saveCodec] at *
+  by_cases hj : j = empty
+  · simp [hj] at hl; subst hl; simp
+  · simp [hj] at hl
+    have hv : v ≠ unset := fun he => hunset j (he ▸ hl)
+    have h2 := h j v hl
+    have hp : cd.print v ≠ empty := fun he => by rw [he, hempty] at h2; cases h2
+    simp [hv, hp, h2]
+
+/-- **settable**: every well-formed (parsable) non-empty text arrives as the value it denotes -/
+theorem codec_settable (lk : LoadKind) (hk : lk = .codecAlways ∨ lk = .codecNonEmpty) (cd : Codec J C)
+    (empty : J) (cur c : C) (j : J) (hp : cd.parse j = some c) (hne : j ≠ empty) :
+    loadCodec lk cd empty cur j = some c := by
+  rcases hk with h | h <;> subst h <;> simp [loadCodec, hp, hne]
+
+/-- refusal is an error value and happens only for a text the parser rejects -/
+theorem codec_refuses_only_unparsable (lk : LoadKind) (cd : Codec J C) (empty : J) (cur : C) (j : J)
+    (h : loadCodec lk cd empty cur j = none) : cd.parse j = none ∧ (lk = .codecAlways ∨ lk = .codecNonEmpty) := by
+  cases lk <;> simp [loadCodec] at h ⊢
+  · exact h
+  · by_cases hj : j = empty <;> simp [hj] at h; exact h
+
+/-- **accepted ⇒ the row's own Validate conjunct** (`cfg.G == nil` rejected): what the loader leaves in the field
+is the value `Default()` put there or a value the parser produced — never the unset value when the default is set -/
+theorem codec_accept_valid (lk : LoadKind) (cd : Codec J C) (empty : J) (unset cur v : C) (j : J)
+    (hunset : ∀ j, cd.parse j ≠ some unset) (hcur : cur ≠ unset ∨ lk = .codecAlways)
+    (hk : lk = .codecAlways ∨ lk = .codecNonEmpty) (hl : loadCodec lk cd empty cur j = some v) : v ≠ unset := by
+  rcases hk with h | h <;> subst h <;> simp only [loadCodec] at hl
+  · exact fun he => hunset j (he ▸ hl)
+  · by_cases hj : j = empty
+    · simp [hj] at hl; subst hl; rcases hcur with h | h
+      · exact h
+      · cases h
+    · simp [hj] at hl; exact fun he => hunset j (he ▸ hl)
+
+/-! ### lists -/
+
+theorem parseList_length (cd : Codec J C) : ∀ (j : List J) (l : List C), parseList cd j = some l → l.length = j.length
+  | [], l, h => by simp [parseList] at h; subst h; rfl
+  | a :: rest, l, h => by
+    simp only [parseList] at h
+    cases hp : cd.parse a with
+    | none => simp [hp] at h
+    | some c =>
+      cases hr : parseList cd rest with
+      | none => simp [hp, hr] at h
+      | some l' =>
+        simp [hp, hr] at h; subst h
+        simp [parseList_length cd rest l' hr]
+
+theorem parseList_roundtrips (cd : Codec J C) (h : cd.RoundTrips) :
+    ∀ (j : List J) (l : List C), parseList cd j = some l → parseList cd (l.map cd.print) = some l
+  | [], l, hl => by simp [parseList] at hl; subst hl; rfl
+  | a :: rest, l, hl => by
+    simp only [parseList] at hl
+    cases hp : cd.parse a with
+    | none => simp [hp] at hl
+    | some c =>
+      cases hr : parseList cd rest with
+      | none => simp [hp, hr] at hl
+      | some l' =>
+        simp [hp, hr] at hl; subst hl
+        simp [parseList, h a c hp, parseList_roundtrips cd h rest l' hr]
+
+/-- every entry parses ⇒ the list is taken entry by entry (settable) -/
+theorem parseList_all (cd : Codec J C) (h : cd.LeftInv) (l : List C) : parseList cd (l.map cd.print) = some l := by
+  induction l with
+  | nil => rfl
+  | cons c rest ih => simp [parseList, h c, ih]
+
+/-- all four all-or-nothing list pairs: accepted ⇒ save → load gives the same list.  For the `NonEmpty` load
+an empty list keeps the current value `cur` (the default), and printing then loading `cur` needs `cur` to be
+parser-made (`hcur`); a saved list that is empty is omitted or written as `[]`, which is the same JSON-level value. -/
+theorem codecList_roundtrip (lk : LoadKind) (sk : SaveKind)
+    (hk : lk = .codecListAlways ∨ lk = .codecListNonEmpty) (cd : Codec J C) (h : cd.RoundTrips)
+    (cur v : List C) (j : List J) (hcur : parseList cd (cur.map cd.print) = some cur)
+    (hl : loadCodecList lk cd cur j = some v) :
+    loadCodecList lk cd cur (saveCodecList sk cd v) = some v := by
+  rcases hk with hk | hk <;> subst hk <;> simp only [loadCodecList, saveCodecList] at *
+  · exact parseList_roundtrips cd h j v hl
+  · by_cases hj : j.isEmpty = true
+    · simp [hj] at hl; subst hl
+      by_cases hc : (List.map cd.print cur).isEmpty = true
+      · simp [hc]
+      · simp [hc, hcur]
+    · simp [hj] at hl
+      have hlen := parseList_length cd j v hl
+      have hv : (List.map cd.print v).isEmpty = false := by
+        cases v with
+        | nil => cases j with
+          | nil => simp at hj
+          | cons _ _ => simp at hlen
+        | cons _ _ => simp
+      simp [hv, parseList_roundtrips cd h j v hl]
+
+/-- the empty list cannot be written over a non-empty default under the `NonEmpty` load (finding K12 for
+restapi `http_listen_multiaddress` and ipfsproxy `listen_multiaddress`); under `codecListAlways` it can -/
+theorem codecList_empty (cd : Codec J C) (cur : List C) :
+    loadCodecList .codecListNonEmpty cd cur [] = some cur ∧ loadCodecList .codecListAlways cd cur [] = some [] := by
+  simp [loadCodecList, parseList]
+
+/-- raft `init_peerset` (`api.StringsToPeers`): undecodable entries are skipped, never refused; what was kept is
+reproduced -/
+theorem codecList_lenient_roundtrip (cd : Codec J C) (h : cd.RoundTrips) (cur cur' : List C) (j : List J) (sk : SaveKind) :
+    ∃ v, loadCodecList .codecListLenient cd cur j = some v ∧
+      loadCodecList .codecListLenient cd cur' (saveCodecList sk cd v) = some v := by
+  refine ⟨j.filterMap cd.parse, rfl, ?_⟩
+  simp only [loadCodecList, saveCodecList, Option.some.injEq]
+  induction j with
+  | nil => rfl
+  | cons a rest ih =>
+    cases hp : cd.parse a with
+    | none => simpa [List.filterMap_cons, hp] using ih
+    | some c => simp [List.filterMap_cons, hp, h a c hp]; simpa using ih
+
+/-! ### crdt `trusted_peers` with `"*"` -/
+
+/-- the loader yields either (TrustAll, no list) or (not TrustAll, the decoded list) -/
+theorem star_shape (cd : Codec J C) (star : J) : ∀ (j : List J) (r : Bool × List C),
+    loadStar cd star j = some r → r.1 = true → r.2 = []
+  | [], r, h, ht => by simp [loadStar] at h; subst h; simp at ht
+  | p :: rest, r, h, ht => by
+    simp only [loadStar] at h
+    by_cases hp : p = star
+    · simp [hp] at h; subst h; rfl
+    · simp only [hp, if_false] at h
+      cases hc : cd.parse p with
+      | none => simp [hc] at h
+      | some c =>
+        cases hr : loadStar cd star rest with
+        | none => simp [hc, hr] at h
+        | some r' =>
+          obtain ⟨b, l⟩ := r'
+          cases b <;> simp [hc, hr] at h <;> subst h
+          · simp at ht
+          · rfl
+
+theorem star_print_list (cd : Codec J C) (h : cd.LeftInv) (star : J) (hstar : cd.parse star = none) (l : List C) :
+    loadStar cd star (l.map cd.print) = some (false, l) := by
+  induction l with
+  | nil => rfl
+  | cons c rest ih =>
+    have hne : cd.print c ≠ star := fun he => by have := h c; rw [he, hstar] at this; cases this
+    simp [loadStar, hne, h c, ih]
+
+/-- **round trip**: `"*"` is not a peer ID (`hstar`), so a saved list never turns into TrustAll and `["*"]` comes
+back as TrustAll with an empty list — the C07 reading of `trusted_peers` -/
+theorem star_roundtrip (cd : Codec J C) (h : cd.LeftInv) (star : J) (hstar : cd.parse star = none)
+    (j : List J) (r : Bool × List C) (hl : loadStar cd star j = some r) :
+    loadStar cd star (saveStar cd star r) = some r := by
+  obtain ⟨b, l⟩ := r
+  cases b
+  · simpa [saveStar] using star_print_list cd h star hstar l
+  · have := star_shape cd star j (true, l) hl rfl
+    simp at this; subst this
+    simp [saveStar, loadStar]
+
+/-- `"*"` first (or after decodable entries) means trust everybody, whatever follows it -/
+theorem star_trust_all (cd : Codec J C) (star : J) (pre : List C) (post : List J) (h : cd.LeftInv)
+    (hstar : cd.parse star = none) :
+    loadStar cd star (pre.map cd.print ++ star :: post) = some (true, []) := by
+  induction pre with
+  | nil => simp [loadStar]
+  | cons c rest ih =>
+    have hne : cd.print c ≠ star := fun he => by have := h c; rw [he, hstar] at this; cases this
+    simp [loadStar, hne, h c, ih]
+
+end CodecKinds
+
+/-! ### enumerations: the codec law is proved over the regenerated tables -/
+
+/-- the load `switch` and the `String()` method are inverse to each other, entry by entry -/
+def enumTablesInverse (loadT saveT : List (String × String)) : Bool :=
+  loadT.all (fun (s, c) => lookup saveT c == some s && lookup loadT s == some c) &&
+  saveT.all (fun (c, s) => lookup loadT s == some c)
+
+theorem enum_roundtrips (loadT saveT : List (String × String)) (h : enumTablesInverse loadT saveT = true) :
+    (enumCodec loadT saveT).RoundTrips := by
+  intro j c hj
+  simp only [enumCodec, lookup] at hj ⊢
+  simp only [enumTablesInverse, Bool.and_eq_true, List.all_eq_true] at h
+  cases hf : List.find? (fun x => x.1 == j) loadT with
+  | none => simp [hf] at hj
+  | some e =>
+    simp [hf] at hj
+    have hmem := List.mem_of_find?_eq_some hf
+    have hkey : e.1 = j := by simpa using List.find?_some hf
+    have := h.1 e hmem
+    obtain ⟨s, c'⟩ := e
+    simp only at hj hkey
+    subst hj; subst hkey
+    simp only [lookup, Bool.and_eq_true, beq_iff_eq] at this
+    rw [this.1]; simpa [lookup] using this.2
+
+/-- closed set: a text outside the load table is refused (no default is substituted) -/
+theorem enum_closed (loadT saveT : List (String × String)) (s : String)
+    (h : loadT.all (fun e => e.1 != s) = true) :
+    loadCodec .codecAlways (enumCodec loadT saveT) "" "" s = none := by
+  simp only [loadCodec, enumCodec, lookup, Option.map_eq_none_iff, List.find?_eq_none]
+  intro e he
+  have := List.all_eq_true.mp h e he
+  simpa using this
+
+/-! ### restapi TLS path pair -/
+
+/-- the texts written in the file are what is saved (not the resolved paths), and a fresh object with the same
+base directory and file system accepts the saved form and ends in the same state -/
+theorem tls_roundtrip (isAbs : String → Bool) (join : String → String → String) (fs : String → String → Bool)
+    (base cert key : String) (s : TLSState)
+    (hl : loadTLS isAbs join fs base ⟨"", "", false⟩ cert key = some s) :
+    (cert ++ key ≠ "" → saveTLS s = (cert, key)) ∧
+    loadTLS isAbs join fs base ⟨"", "", false⟩ (saveTLS s).1 (saveTLS s).2 = some s := by
+  simp only [loadTLS, saveTLS] at *
+  by_cases he : cert ++ key = ""
+  · simp [he] at hl; subst hl; simp [he]
+  · simp only [he, if_false] at hl
+    by_cases hf : fs (resolvePath isAbs join base cert) (resolvePath isAbs join base key) = true
+    · simp [hf] at hl; subst hl; simp [he, hf]
+    · simp [hf] at hl
+
+/-- an absolute path is used as it is; a relative one is joined with the base directory exactly once -/
+theorem tls_resolved_once (isAbs : String → Bool) (join : String → String → String) (base p : String) :
+    resolvePath isAbs join base p = (if isAbs p then p else join base p) := rfl
+
+/-! ### integer seconds: a lossy save, and exactly what it loses -/
+
+theorem seconds_loses_subsecond (v : Int) : loadSeconds (saveSeconds v) = v - v.tmod nsPerSec := by
+  have := Int.mul_tdiv_add_tmod v nsPerSec
+  simp only [loadSeconds, saveSeconds]
+  rw [Int.mul_comm]; omega
+
+theorem seconds_lossless_iff (v : Int) : loadSeconds (saveSeconds v) = v ↔ v.tmod nsPerSec = 0 := by
+  rw [seconds_loses_subsecond]; omega
+
+/-- 1.5 s saved as integer seconds comes back as 1 s: `durSeconds` is not a lossless save kind -/
+theorem seconds_not_lossless : ∃ v : Int, loadSeconds (saveSeconds v) ≠ v ∧ ∀ lk, lossless lk .durSeconds = false := by
+  refine ⟨1500000000, by decide, ?_⟩
+  intro lk; cases lk <;> rfl
 
 /-- the model's prediction for a scalar row keeps every non-zero value it accepts (so a correspondence
 `ok` on a lossless row implies the Spec's `preserved` for it) -/
@@ -209,8 +500,12 @@ def rowStrict (f : Field) : Bool :=
   (!(f.save == .omitIfDefault || f.save == .omitIfDefaultDur) || (f.omitC != .unknown && f.omitC == f.dflt)) &&
   secretHidden f &&
   defaultValid f &&
-  -- a zero that is not numeric/duration must be settable: zero-blind kinds need a zero default
-  (zeroExcused f.ty || !zeroBlind f.load || f.dflt == f.ty.zero)
+  -- a zero that is not numeric/duration must be settable: zero-blind kinds need a zero default; the empty
+  -- string is not a well-formed multiaddress / peer ID / key, so a single-value codec row owes nothing for it
+  (zeroExcused f.ty || !zeroBlind f.load || f.dflt == f.ty.zero || f.load == .codecNonEmpty) &&
+  -- a parse/print kind names its codec, and a hidden tag is where DisplayJSON looks for it
+  ((f.load.isCodec && f.load != .tlsPath && f.load != .copyNonEmpty) == (f.codec != .none)) &&
+  !f.hiddenNested
 
 def sectionStrict (s : Section) : Bool :=
   s.loadEndsWithValidate && (s.loadStartsFromDefault || s.name == "identity")
@@ -237,7 +532,9 @@ def exceptions : List (String × String × String) := [
   ("crdt", "datastore_namespace", "defect K12: \"\" falls back to \"/c\""),
   ("ipfsproxy", "extract_headers_path", "defect K12: \"\" falls back to the default instead of being refused"),
   ("badger", "folder", "defect K12: \"\" falls back to \"badger\" instead of being refused"),
-  ("leveldb", "folder", "defect K12: \"\" falls back to \"leveldb\" instead of being refused") ]
+  ("leveldb", "folder", "defect K12: \"\" falls back to \"leveldb\" instead of being refused"),
+  ("restapi", "http_listen_multiaddress", "defect K12: [] keeps the default address (len(x) > 0 guard)"),
+  ("ipfsproxy", "listen_multiaddress", "defect K12: [] keeps the default address (len(x) > 0 guard) instead of being refused") ]
 
 def excepted (f : Field) : Bool := exceptions.any fun (s, p, _) => s == f.sec && p == f.path
 
@@ -283,6 +580,19 @@ theorem allowList_exact :
       f.sec == s && f.path == p && !(lossless f.load f.save)) = true := by
   constructor <;> decide
 
+/-- every enumeration of the sources: the load `switch` and the `String()` method are inverse tables, hence
+(`enum_roundtrips`) the enum codec round-trips; and every enum-codec row has its tables -/
+theorem table_enum_roundtrips :
+    Gen.enums.all (fun (_, lt, st) => enumTablesInverse lt st && !lt.isEmpty) = true ∧
+    Gen.fields.all (fun f => f.codec != .enum || Gen.enums.any (fun (s, _, _) => s == f.sec)) = true := by
+  constructor <;> decide
+
+/-- the cluster secret is hex of exactly 0 (no secret) or 32 bytes: anything else is refused -/
+theorem table_secret_lengths : Gen.secretLens = [0, 32] := by decide
+
+/-- no `hidden:"true"` tag sits below the top level of a JSON struct, where `DisplayJSON` would not see it -/
+theorem table_no_nested_hidden : Gen.fields.all (fun f => !f.hiddenNested) = true := by decide
+
 /-- every default the translator can see passes the Validate conjuncts it can see -/
 theorem table_defaults_valid : Gen.fields.all defaultValid = true := by decide
 
@@ -292,6 +602,255 @@ example : ∃ f ∈ Gen.fields, f.path = "datastore_namespace" ∧ f.sec = "raft
 
 set_option maxRecDepth 20000 in
 example : (Gen.fields.filter (fun f => lossless f.load f.save)).length ≥ 100 := by decide
+
+set_option maxRecDepth 20000 in
+example : (Gen.fields.filter (fun f => codecPair f.load f.save)).length ≥ 19 := by decide
+
+/-- the enum codec of the disk informer meets the hypothesis of the codec theorems -/
+example : (enumCodec [("reposize", "MetricRepoSize"), ("freespace", "MetricFreeSpace")]
+    [("MetricFreeSpace", "freespace"), ("MetricRepoSize", "reposize")]).RoundTrips :=
+  enum_roundtrips _ _ (by decide)
+
+
+/-! ## 2b. `Validate()` as a conjunction with guards and cross-field conjuncts -/
+
+theorem validate_reject_iff (e : Env) (cs : List Conj) :
+    validate e cs = .reject ↔ ∃ c ∈ cs, c.fires e = some true := by
+  unfold validate
+  cases h : cs.any (fun c => c.fires e == some true) with
+  | true =>
+    simp only [if_true, true_iff]
+    obtain ⟨c, hc, hf⟩ := List.any_eq_true.mp h
+    exact ⟨c, hc, by simpa using hf⟩
+  | false =>
+    cases h3 : cs.all (fun c => c.fires e == some false) <;>
+      simp only [Bool.false_eq_true, if_false, if_true, reduceCtorEq, false_iff] <;>
+      (rintro ⟨c, hc, hf⟩
+       have hb : (c.fires e == some true) = true := by simp [hf]
+       have : cs.any (fun c => c.fires e == some true) = true := List.any_eq_true.mpr ⟨c, hc, hb⟩
+       rw [h] at this; cases this)
+
+theorem validate_accept_iff (e : Env) (cs : List Conj) :
+    validate e cs = .accept ↔ ∀ c ∈ cs, c.fires e = some false := by
+  unfold validate
+  cases h : cs.any (fun c => c.fires e == some true) with
+  | true =>
+    simp only [if_true, reduceCtorEq, false_iff]
+    intro h2
+    obtain ⟨c, hc, hf⟩ := List.any_eq_true.mp h
+    have := h2 c hc
+    simp [this] at hf
+  | false =>
+    cases h3 : cs.all (fun c => c.fires e == some false) with
+    | true =>
+      simp only [Bool.false_eq_true, if_false, if_true, true_iff]
+      intro c hc; simpa using List.all_eq_true.mp h3 c hc
+    | false =>
+      simp only [Bool.false_eq_true, if_false, reduceCtorEq, false_iff]
+      intro h2
+      have : cs.all (fun c => c.fires e == some false) = true :=
+        List.all_eq_true.mpr (fun c hc => by simp [h2 c hc])
+      rw [h3] at this; cases this
+
+/-- **LoadJSON accepts ⇒ Validate holds** for every modelled conjunct: no conjunct fires on what was loaded -/
+theorem load_accept_valid (applied : Option Env) (cs : List Conj) (e : Env) (h : loadSection applied cs = some e) :
+    applied = some e ∧ validate e cs ≠ .reject ∧ ∀ c ∈ cs, c.fires e ≠ some true := by
+  cases applied with
+  | none => simp [loadSection] at h
+  | some e' =>
+    simp only [loadSection] at h
+    by_cases hv : validate e' cs = .reject
+    · simp [hv] at h
+    · simp [hv] at h; subst h
+      refine ⟨rfl, hv, fun c hc hf => hv ((validate_reject_iff _ _).mpr ⟨c, hc, hf⟩)⟩
+
+/-- … and what Validate rejects is refused at load time (an error value, `none`) -/
+theorem load_refuses_rejected (cs : List Conj) (e : Env) (h : validate e cs = .reject) :
+    loadSection (some e) cs = none := by
+  simp [loadSection, h]
+
+/-- a conjunct over two integer fields fires exactly on its side of the boundary -/
+theorem cmp_two_fields (e : Env) (a b : String) (x y : Int) (o : Op)
+    (ha : e.get ("f:" ++ a) = .int x) (hb : e.get ("f:" ++ b) = .int y) :
+    (Cond.cmp (.fld a) o (.fld b)).eval e = some (o.holds x y) := by
+  simp [Cond.eval, Tm.eval, ha, hb, cmpVal]
+
+/-- a conjunct whose guard is off never fires, whatever its condition (metrics/tracing when disabled) -/
+theorem guard_off (e : Env) (c : Conj) (g : Cond) (h : c.guard = some g) (hg : g.eval e = some false) :
+    c.fires e = some false := by
+  simp [Conj.fires, h, hg, and3]
+
+/-- with the guard on, the conjunct is its condition -/
+theorem guard_on (e : Env) (c : Conj) (g : Cond) (h : c.guard = some g) (hg : g.eval e = some true) (b : Bool)
+    (hc : c.cond.eval e = some b) : c.fires e = some b := by
+  cases b <;> simp [Conj.fires, h, hg, hc, and3]
+
+/-- the `low_water > high_water` conjunct of the cluster section, on both sides of its boundary -/
+example : validate [("f:A", .int 5), ("f:B", .int 5)] [{ guard := none, cond := .cmp (.fld "A") .gt (.fld "B") }] = .accept ∧
+    validate [("f:A", .int 6), ("f:B", .int 5)] [{ guard := none, cond := .cmp (.fld "A") .gt (.fld "B") }] = .reject := by decide
+
+/-- **defaults validate, cross-field and guarded conjuncts included**: for no section does a conjunct fire on the
+values `Default()` gives; for the sections all of whose conjuncts read evident defaults the verdict is `accept` -/
+theorem table_defaults_validate :
+    Gen.validates.all (fun (_, cs, env) => validate env cs != .reject) = true ∧
+    (Gen.validates.filter (fun (_, cs, env) => validate env cs == .accept)).length ≥ 8 ∧
+    Gen.validates.length = Gen.sections.length := by
+  refine ⟨by decide, by decide, by decide⟩
+
+
+/-! ## 2c. config.Manager: a whole file in, a whole file out (model `Mgr` in Model/C15.lean) -/
+namespace Mgr
+
+variable {σ V : Type}
+
+/-- every section of the registry round-trips what it saves (the per-section statement: kind theorems + sweeps) -/
+def RegRoundTrips (r : Reg σ V) : Prop :=
+  (∀ x, r.cluster.load (r.cluster.save x) = some x) ∧
+  ∀ g n sp, r.spec g n = some sp → ∀ x, sp.load (sp.save x) = some x
+
+/-- **manager_save_load_id**: for every Manager state reachable by an accepted load, `ToJSON` succeeds and a
+Manager in *any* prior state loading the saved file accepts it and holds the same cluster section and the same
+configuration for every registered component (and nothing for an unregistered one) -/
+theorem manager_save_load_id (r : Reg σ V) (hr : RegRoundTrips r) (prev : State σ V) (f : File V) (s : State σ V)
+    (hl : Loads r prev f s) :
+    ∃ fs, saved r s = some fs ∧
+      (∀ prev', Loads r prev' fs { s with raw := fs }) ∧
+      (∀ prev' s', Loads r prev' fs s' → s'.cluster = s.cluster ∧ ∀ g n, s'.comp g n = s.comp g n) := by
+  obtain ⟨_, hne, hcomp, _⟩ := hl
+  cases hc : s.cluster with
+  | none => exact absurd hc hne
+  | some c =>
+    have hsv : ∃ fs, saved r s = some fs := by simp [saved, hc]
+    obtain ⟨fs, hfs⟩ := hsv
+    refine ⟨fs, hfs, ?_, ?_⟩ <;> (simp only [saved, hc, Option.some.injEq] at hfs; subst hfs)
+    · intro prev'
+      refine ⟨⟨c, hr.1 c, by simp [hc]⟩, by simp [hc], ?_, rfl⟩
+      intro g n
+      have h1 := hcomp g n
+      cases hs : r.spec g n with
+      | none => simpa [hs] using h1
+      | some sp =>
+        simp only [hs] at h1 ⊢
+        have hx : ∃ x, s.comp g n = some x := by
+          cases he : f.entry g n with
+          | none => simp [he] at h1; exact ⟨_, h1⟩
+          | some e => cases e with
+            | null => simp [he] at h1
+            | obj j => simp [he] at h1; obtain ⟨x, _, hx⟩ := h1; exact ⟨x, hx⟩
+        obtain ⟨x, hx⟩ := hx
+        simp only [hx]
+        exact ⟨x, hr.2 g n sp hs x, rfl⟩
+    · intro prev' s' hl'
+      obtain ⟨hcl', _, hcomp', _⟩ := hl'
+      constructor
+      · simp only at hcl'
+        obtain ⟨c', h1, h2⟩ := hcl'
+        rw [hr.1 c] at h1; cases h1; rw [h2]
+      · intro g n
+        have h1 := hcomp g n
+        have h2 := hcomp' g n
+        cases hs : r.spec g n with
+        | none => simp [hs] at h1 h2; rw [h1, h2]
+        | some sp =>
+          simp only [hs] at h1 h2
+          have hx : ∃ x, s.comp g n = some x := by
+            cases he : f.entry g n with
+            | none => simp [he] at h1; exact ⟨_, h1⟩
+            | some e => cases e with
+              | null => simp [he] at h1
+              | obj j => simp [he] at h1; obtain ⟨x, _, hx⟩ := h1; exact ⟨x, hx⟩
+          obtain ⟨x, hx⟩ := hx
+          simp only [hx] at h2
+          obtain ⟨x', h3, h4⟩ := h2
+          rw [hr.2 g n sp hs x] at h3; cases h3; rw [h4, hx]
+
+/-- **unknown_sections_policy**: what `ToJSON` writes for every (group, name) after an accepted load —
+an *unregistered* name keeps exactly what the file had (an object, `null`, or nothing: unknown components and
+unknown groups are preserved, never interpreted); a *registered* component is always written, with its defaults
+when the file did not define it; a registered component given as `null` is refused at load time -/
+theorem unknown_sections_policy (r : Reg σ V) (prev : State σ V) (f : File V) (s : State σ V) (fs : File V)
+    (hl : Loads r prev f s) (hs : saved r s = some fs) (g n : String) :
+    (r.spec g n = none → fs.entry g n = f.entry g n) ∧
+    (∀ sp, r.spec g n = some sp → f.entry g n = none → fs.entry g n = some (.obj (sp.save sp.dflt))) ∧
+    (∀ sp, r.spec g n = some sp → f.entry g n ≠ some .null) := by
+  obtain ⟨_, hne, hcomp, hraw⟩ := hl
+  cases hc : s.cluster with
+  | none => exact absurd hc hne
+  | some c =>
+    simp only [saved, hc, Option.some.injEq] at hs
+    subst hs
+    have h1 := hcomp g n
+    refine ⟨?_, ?_, ?_⟩
+    · intro hn; simp [hn, hraw]
+    · intro sp hsp he
+      simp only [hsp, he] at h1
+      simp [hsp, h1]
+    · intro sp hsp he
+      simp [hsp, he] at h1
+
+/-- the masked form of one component: every top-level hidden key carries the mask, whatever was under it -/
+theorem mask_hides (hidden : List String) (maskV : V) (j : CompJ V) (k : String) (v : V)
+    (hm : (k, v) ∈ mask hidden maskV j) (hk : hidden.contains k = true) : v = maskV := by
+  simp only [mask, List.mem_map] at hm
+  obtain ⟨kv, _, he⟩ := hm
+  by_cases h : hidden.contains kv.1 = true
+  · simp only [h, if_true, Prod.mk.injEq] at he; exact he.2.symm
+  · simp only [h] at he
+    simp only [Bool.false_eq_true, if_false] at he
+    subst he
+    exact absurd hk h
+
+/-- … and nothing else is touched (no field disappears from the displayable form, keys stay in order) -/
+theorem mask_keeps_keys (hidden : List String) (maskV : V) (j : CompJ V) :
+    (mask hidden maskV j).map (·.1) = j.map (·.1) := by
+  simp only [mask, List.map_map]
+  apply List.map_congr_left
+  intro kv _
+  simp only [Function.comp]
+  split <;> rfl
+
+/-- **display_hides_all_hidden**: in the displayable form of the whole Manager — the cluster section and every
+component of every group — each hidden top-level key of each section carries the mask and nothing else; and
+nothing that is not a registered component is displayed at all (an unknown component of the file, whatever it
+contains, never reaches the displayable form) -/
+theorem display_hides_all_hidden (r : Reg σ V) (maskV : V) (s : State σ V) :
+    (∀ j, (display r maskV s).cluster = some j → ∀ k v, (k, v) ∈ j → r.cluster.hidden.contains k = true → v = maskV) ∧
+    (∀ g n j, (display r maskV s).entry g n = some (.obj j) →
+      ∃ sp, r.spec g n = some sp ∧ ∀ k v, (k, v) ∈ j → sp.hidden.contains k = true → v = maskV) ∧
+    (∀ g n, r.spec g n = none → (display r maskV s).entry g n = none) := by
+  refine ⟨?_, ?_, ?_⟩
+  · intro j hj k v hm hk
+    simp only [display, Option.map_eq_some_iff] at hj
+    obtain ⟨c, _, rfl⟩ := hj
+    exact mask_hides _ _ _ k v hm hk
+  · intro g n j hj
+    simp only [display] at hj
+    cases hs : r.spec g n with
+    | none => simp [hs] at hj
+    | some sp =>
+      cases hx : s.comp g n with
+      | none => simp [hs, hx] at hj
+      | some x =>
+        simp [hs, hx] at hj
+        subst hj
+        exact ⟨sp, rfl, fun k v hm hk => mask_hides _ _ _ k v hm hk⟩
+  · intro g n hn; simp [display, hn]
+
+/-- duplicate keys: the last occurrence is the one that counts -/
+theorem dup_last_wins (l : List (String × α)) (k : String) (v : α) : lookupLast (l ++ [(k, v)]) k = some v := by
+  simp [lookupLast]
+
+/-- the hypotheses are satisfiable: a one-component registry whose section round-trips -/
+example : ∃ r : Reg Nat Nat, RegRoundTrips r ∧ r.spec "consensus" "crdt" ≠ none :=
+  ⟨{ cluster := { load := fun j => j.head?.map (·.2), dflt := 0, save := fun x => [("k", x)], hidden := ["secret"] },
+     spec := fun g n => if g == "consensus" && n == "crdt" then
+       some { load := fun j => j.head?.map (·.2), dflt := 1, save := fun x => [("k", x)], hidden := [] } else none },
+   ⟨fun _ => rfl, fun g n sp h x => by
+      by_cases hc : (g == "consensus" && n == "crdt") = true
+      · simp [hc] at h; subst h; rfl
+      · simp [hc] at h⟩, by simp⟩
+
+end Mgr
 
 /-! ## 3. config.Manager and the remote `source` (model `Src` in Model/C15.lean)
 
